@@ -63,6 +63,11 @@ pub static CLONES: AtomicU64 = AtomicU64::new(0);
 pub static CLONEPANIC: AtomicU64 = AtomicU64::new(u64::MAX);
 /// `clonepoint`: `Clone::clone` of an element is a scheduling point (impl-only cases)
 pub static CLONEPOINT: std::sync::atomic::AtomicBool = std::sync::atomic::AtomicBool::new(false);
+/// `rawskip`: the `skip` operation goes through the public `AtomicIter::early_exit` instead of `ConcurrentIter::skip_to_end`
+/// `clonefrom`: a `clone j` operation is performed as `Clone::clone_from` onto an iterator that is ahead of the source
+/// (a clone of it, skipped to its end) instead of `Clone::clone`
+pub static CLONEFROM: std::sync::atomic::AtomicBool = std::sync::atomic::AtomicBool::new(false);
+pub static RAWSKIP: std::sync::atomic::AtomicBool = std::sync::atomic::AtomicBool::new(false);
 /// logged destructions of (non-clone) elements so far in this case, and the one that panics
 pub static DROPS: AtomicU64 = AtomicU64::new(0);
 pub static DROPPANIC: AtomicU64 = AtomicU64::new(u64::MAX);
@@ -86,6 +91,14 @@ pub fn silent() -> bool {
 
 pub fn mark_silent() {
     SILENT.with(|s| s.set(true));
+}
+
+/// Runs `f` with this thread's accesses neither scheduled nor logged (harness set-up work inside an operation).
+pub fn with_silent<R>(f: impl FnOnce() -> R) -> R {
+    let prev = SILENT.with(|s| s.replace(true));
+    let r = f();
+    SILENT.with(|s| s.set(prev));
+    r
 }
 
 /// Writes raw text to the out file (no prefix, no step accounting) and flushes.
